@@ -754,3 +754,26 @@ VARIANTS["C19"] += [
       "    while indices:",
       "    while len(indices) > 0:"),
 ]
+
+_BOA = "syne_tune/optimizer/schedulers/searchers/bayesopt/tuning_algorithms/bo_algorithm.py"
+VARIANTS["C06"] += [
+    B("greedy batch: candidates of a round excluded only after the last round", _BOA,
+      "            if outer_iter < num_outer_iterations - 1 and len(inner_candidates) > 0:\n                just_added = True",
+      "            if outer_iter >= num_outer_iterations - 1 and len(inner_candidates) > 0:\n                just_added = True"),
+    B("greedy batch: only the first candidate of a round is excluded", _BOA,
+      "                for cand in inner_candidates:\n                    self.exclusion_candidates.add(cand)",
+      "                for cand in inner_candidates[:1]:\n                    self.exclusion_candidates.add(cand)"),
+    E("greedy batch: exclusion loop over an alias", _BOA,
+      "                for cand in inner_candidates:\n                    self.exclusion_candidates.add(cand)",
+      "                picked = inner_candidates\n                for cand in picked:\n                    self.exclusion_candidates.add(cand)"),
+]
+
+_MBS = "syne_tune/optimizer/schedulers/searchers/model_based_searcher.py"
+VARIANTS["C06"] += [
+    B("batch: random picks not excluded within the batch", _MBS,
+      "                        # duplicates in the same batch\n                        exclusion_candidates.add(config)\n",
+      "                        # duplicates in the same batch\n"),
+    B("batch: model-based part gets a fresh exclusion list", _MBS,
+      "                    exclusion_candidates=exclusion_candidates,\n                    num_requested_candidates=num_requested_candidates,\n                    greedy_batch_selection=True,",
+      "                    exclusion_candidates=self._get_exclusion_candidates(skip_observed=self._allow_duplicates),\n                    num_requested_candidates=num_requested_candidates,\n                    greedy_batch_selection=True,"),
+]
